@@ -3,6 +3,8 @@
     of the refinement theorems are added in Proofs_C02.v when present). *)
 From AwkV Require Import Layout Carry Proofs_C09.
 From AwkV Require Import Valid Types AtAxis Ops_Struct Proofs_Lists Proofs_ToList Proofs_Carry Proofs_AtAxis Proofs_AtAxisOps Proofs_C02.
+From AwkV Require Import Ops_Reduce Proofs_Reduce Proofs_Reduce2.
+From AwkV Require Import Ops_Sort Proofs_SortRef Proofs_SortRef2.
 
 Theorem byte_mask_encoding_irrelevant : forall m vw c vs,
   to_list c = Ok vs ->
@@ -72,3 +74,21 @@ Theorem numpy_shape_is_regular_nesting : forall c,
   Valid None c -> frag c = true -> to_list (expand c) = to_list c /\ type_of (expand c) = type_of c.
 Proof. exact (fun c H F => conj (expand_to_list c H F) (expand_type_of c H F)). Qed.
 Print Assumptions numpy_shape_is_regular_nesting.
+
+
+Theorem layout_independent_reduce_partial : forall r axis mask keepdims a b vs,
+  Valid None a -> Valid None b -> fin a = true -> fin b = true ->
+  to_list a = Ok vs -> to_list b = Ok vs -> type_of a = type_of b ->
+  obs (reduce_model r axis mask keepdims a) = obs (reduce_model r axis mask keepdims b).
+Proof. exact Proofs_Reduce2.layout_independent_reduce_partial. Qed.
+Print Assumptions layout_independent_reduce_partial.
+
+(* add to the imports of coq/Props_C02.v: *)
+
+Theorem layout_independent_sort : forall asc argsort axis a b vs,
+  Valid None a -> Valid None b -> sfrag a = true -> sfrag b = true ->
+  to_list a = Ok vs -> to_list b = Ok vs -> type_of a = type_of b ->
+  innermost axis (type_of a) = true ->
+  obs (sort_model asc argsort axis a) = obs (sort_model asc argsort axis b).
+Proof. exact layout_independent_sort_partial. Qed.
+Print Assumptions layout_independent_sort.
